@@ -146,6 +146,14 @@ def init_fields(mod, cls):
             for n in ast.walk(m):
                 if isinstance(n, ast.Attribute) and isinstance(n.ctx, (ast.Store, ast.Del)):
                     raise Fail(f"{cls}.{m.name} assigns an attribute")
+                # .. nor change a field in place: no item store into, and no method but .items() of, self.<field>
+                if isinstance(n, ast.Subscript) and isinstance(n.ctx, (ast.Store, ast.Del)) \
+                        and isinstance(n.value, ast.Attribute):
+                    raise Fail(f"{cls}.{m.name} stores an item into an attribute")
+                if isinstance(n, ast.Call) and isinstance(n.func, ast.Attribute) and isinstance(n.func.value, ast.Attribute) \
+                        and isinstance(n.func.value.value, ast.Name) and n.func.value.value.id == "self" \
+                        and n.func.attr != "items":
+                    raise Fail(f"{cls}.{m.name} calls self.{n.func.value.attr}.{n.func.attr}")
     return fields
 
 
@@ -563,7 +571,26 @@ class MFn:
                 raise Fail(f"{self.prefix}: nested loop")
         it = s.iter
         binds = []
-        if isinstance(it, ast.Call) and isinstance(it.func, ast.Attribute) and it.func.attr == "items" and not it.args \
+        lbody = [x for x in s.body if not is_skippable(x)]
+        keyloop = None
+        if isinstance(it, ast.Attribute) and isinstance(it.value, ast.Name) and it.value.id == "self" and self.in_class \
+                and self.fields.get(it.attr, (None, None))[1] == "dict:qtoken" and isinstance(s.target, ast.Name) and lbody:
+            # `for k in self.d: v = self.d[k]; ..` is `for k, v in self.d.items(): ..` (the fields of self are never
+            # written: init_fields)
+            f0 = lbody[0]
+            if isinstance(f0, ast.Assign) and len(f0.targets) == 1 and isinstance(f0.targets[0], ast.Name) \
+                    and isinstance(f0.value, ast.Subscript) and ast.dump(f0.value.value) == ast.dump(it) \
+                    and isinstance(f0.value.slice, ast.Name) and f0.value.slice.id == s.target.id \
+                    and f0.targets[0].id != s.target.id:
+                keyloop = (s.target.id, f0.targets[0].id)
+                lbody = lbody[1:]
+                if keyloop[0] in assigned_names(lbody) or keyloop[1] in assigned_names(lbody):
+                    raise Fail(f"{self.prefix}: the loop body re-assigns {keyloop}")
+        if keyloop:
+            itv = self.ex(it, binds)
+            targets = [(keyloop[0], "str"), (keyloop[1], "qtoken")]
+            elt_t = "(str * Query.qtoken)"
+        elif isinstance(it, ast.Call) and isinstance(it.func, ast.Attribute) and it.func.attr == "items" and not it.args \
                 and not it.keywords:
             itv = self.ex(it.func.value, binds)
             if itv.ty != "dict:qtoken":
@@ -585,7 +612,7 @@ class MFn:
         if len(set(tnames)) != len(tnames):
             raise Fail("loop targets")
         after = used_names(rest)
-        body_assigned = assigned_names(s.body)
+        body_assigned = assigned_names(lbody)
         for n in tnames:
             if n in self.types or n == self.ns or n == self.ds:
                 raise Fail(f"loop variable {n} shadows a variable")
@@ -599,8 +626,8 @@ class MFn:
             state.append(self.ns)
         if not state:
             raise Fail(f"{self.prefix}: a loop without state")
-        reads = used_names(s.body)
-        for n in ast.walk(ast.Module(body=s.body, type_ignores=[])):
+        reads = used_names(lbody)
+        for n in ast.walk(ast.Module(body=lbody, type_ignores=[])):
             if isinstance(n, ast.Attribute) and isinstance(n.value, ast.Name) and n.value.id == "self" \
                     and n.attr in self.fields:
                 reads.add(self.fields[n.attr][0])
@@ -614,7 +641,7 @@ class MFn:
         for n, ty in targets:
             self.types[n] = ty
         self.loop = list(state)
-        body = self.block(list(s.body), self.loop_next)
+        body = self.block(lbody, self.loop_next)
         self.loop = None
         for v in state:
             if self.types.get(v) != saved_types.get(v):
